@@ -144,7 +144,10 @@ impl MemcStore {
                             value -= delta.delta;
                         }
                         record.value = Bytes::from(value.to_string());
+                        // the item keeps its flags; the request carries none
+                        let flags = record.header.flags;
                         record.header = header;
+                        record.header.flags = flags;
                         self.set(key, record).map(|result| DeltaResult {
                             cas: result.cas,
                             value,
